@@ -10,6 +10,7 @@
 
 #![allow(clippy::too_many_arguments, clippy::type_complexity)]
 
+mod gen;
 mod props;
 mod refmodel;
 mod report;
@@ -68,6 +69,23 @@ fn main() {
         i += 2;
     }
 
+    if std::env::var("AVMON_TRACE").is_ok() {
+        struct L;
+        impl log::Log for L {
+            fn enabled(&self, _: &log::Metadata<'_>) -> bool {
+                true
+            }
+            fn log(&self, r: &log::Record<'_>) {
+                if r.target().starts_with("actix") || r.target().starts_with("awc") {
+                    eprintln!("[{}] {}", r.target(), r.args());
+                }
+            }
+            fn flush(&self) {}
+        }
+        static LOGGER: L = L;
+        let _ = log::set_logger(&LOGGER);
+        log::set_max_level(log::LevelFilter::Trace);
+    }
     report::install_panic_hook();
     let ctx = Ctx { tier, seed, shard, nshards, replay, budget_s, start: Instant::now(), scale_pct, layer };
     let mut rep = Reporter::new(&id, &log);
